@@ -1,10 +1,11 @@
 (* C14 — tenant vector quotas are exact.  Statements only; proofs live in Proofs/QuotaProofs.v; the
    model is Model/Quota.v (sequential handlers + interleaving model of the quota protocol).
    PARTIAL: sequential histories are proved for every history; concurrency is proved on the
-   interleaving model for EVERY pair of calls out of {Insert, BulkInsert, BulkLoadHnsw, Delete,
-   BatchDelete} of one tenant and every schedule (all five take the per-tenant quota mutex since
-   /repo 3784711).  More than two concurrent calls and crashes are not covered; runtime scheduling of
-   the real binary is sampled by the harness, not proved.
+   interleaving model for ANY NUMBER of concurrent calls out of {Insert, BulkInsert, BulkLoadHnsw,
+   Delete, BatchDelete}, of one tenant (C14_many_calls) and of any number of tenants
+   (C14_many_tenants), every schedule (all five take the per-tenant quota mutex since /repo 3784711).
+   Crashes are not covered (restart is modelled at quiescent points); runtime scheduling of the real
+   binary is sampled by the harness, not proved.
    The protocol BEFORE 3784711 (Delete / BatchDelete without the mutex) is kept as regression
    documentation: Examples C14_old_protocol_* show the schedules on which it drifted. *)
 From Coq Require Import List NArith Bool.
@@ -41,7 +42,51 @@ Theorem C14_never_refused_below_limit :
    <-> (mem (qi_id it) (t_live ts) = false /\ len (t_live ts) = q_limit cfg t)).
 Proof. intros cfg es t it Ha ts. apply insert_refused_iff; [apply qfinal_good|exact Ha]. Qed.
 
-(* ---- interleaving model: ANY two calls out of Insert, BulkInsert, BulkLoadHnsw, Delete, BatchDelete of
+(* ---- interleaving model, ANY NUMBER of concurrent calls of one tenant: a list of calls, each an Insert,
+   BulkInsert, BulkLoadHnsw, Delete or BatchDelete that has just arrived (same or different ids,
+   accepted or engine-rejected vectors, duplicates in batches); the scheduler picks any call at every
+   step (a blocked or finished call's turn is a no-op).  At EVERY instant of EVERY schedule:
+     count = |live| + dsum   where dsum = the reservations / not yet applied decrements of the calls
+                              currently inside their critical sections (gdebt),
+     |live| <= count <= limit,  live has no duplicates,
+     a call is inside its critical section iff it holds the mutex (so at most one is),
+     whenever the mutex is free the count is exact;
+   and when every call has returned the count is exact and the mutex is free. *)
+Theorem C14_many_calls :
+  forall (limit count : N) (live : list N) (ths : list thr) (sched : list nat),
+  NoDup live -> count = len live -> count <= limit -> Forall fresh ths ->
+  let c := mrun limit sched (mstart count live ths) in
+  (sh_count (m_sh c) = len (sh_live (m_sh c)) + dsum (sh_live (m_sh c)) (m_ths c)
+   /\ len (sh_live (m_sh c)) <= sh_count (m_sh c) /\ sh_count (m_sh c) <= limit /\ NoDup (sh_live (m_sh c))
+   /\ (forall j x, nth_error (m_ths c) j = Some x -> (gin_cs x = true <-> sh_mutex (m_sh c) = Some j))
+   /\ (sh_mutex (m_sh c) = None -> sh_count (m_sh c) = len (sh_live (m_sh c))))
+  /\ (mquiescent c = true -> sh_count (m_sh c) = len (sh_live (m_sh c)) /\ sh_mutex (m_sh c) = None).
+Proof. exact many_calls. Qed.
+
+(* ---- any number of tenants, any number of calls each: every call works on its own tenant's counter,
+   documents and mutex; for EVERY tenant t the same invariant holds with dsum taken over t's own calls
+   (`view t` shows another tenant's call as an idle one) *)
+Theorem C14_many_tenants :
+  forall (limit : N -> N) (w0 : N -> shared) (ths : list (N * thr)) (sched : list nat),
+  (forall t, NoDup (sh_live (w0 t)) /\ sh_count (w0 t) = len (sh_live (w0 t)) /\ sh_count (w0 t) <= limit t
+             /\ sh_mutex (w0 t) = None) ->
+  Forall (fun p => fresh (snd p)) ths ->
+  let c := wrun limit sched (mkW w0 ths) in
+  forall t,
+    (sh_count (w_sh c t) = len (sh_live (w_sh c t)) + dsum (sh_live (w_sh c t)) (map (view t) (w_ths c))
+     /\ len (sh_live (w_sh c t)) <= sh_count (w_sh c t) /\ sh_count (w_sh c t) <= limit t
+     /\ NoDup (sh_live (w_sh c t))
+     /\ (sh_mutex (w_sh c t) = None -> sh_count (w_sh c t) = len (sh_live (w_sh c t))))
+    /\ (wquiescent c = true -> sh_count (w_sh c t) = len (sh_live (w_sh c t)) /\ sh_mutex (w_sh c t) = None).
+Proof. exact many_tenants. Qed.
+(* a step of a call of tenant u leaves every other tenant's counter, documents and mutex untouched *)
+Theorem C14_other_tenants_untouched :
+  forall limit c i u th t,
+  nth_error (w_ths c) i = Some (u, th) -> t <> u -> w_sh (wstep limit c i) t = w_sh c t.
+Proof. exact wstep_other_tenant. Qed.
+
+(* ---- the two-call instance (the list [a; b]) *)
+(* ANY two calls out of Insert, BulkInsert, BulkLoadHnsw, Delete, BatchDelete of
    one tenant (same or different ids, accepted or engine-rejected vectors, duplicates in batches),
    EVERY schedule: at every instant  |live| <= count <= limit;  when both calls have returned the
    count is exact and the mutex is free.  This covers overwrite || delete, bulk_insert || delete,
@@ -143,9 +188,24 @@ Example C14_nonvacuous_overwrite_delete :
   quiescent c = true /\ final_count c = 1 /\ final_live c = 1.
 Proof. exact pairs_nonvacuous_delete. Qed.
 
+(* three calls of one tenant at limit 2 with one live document: overwrite of 1, delete of 1, insert of
+   a new id 3, under a round-robin schedule; all return, the count is exact *)
+Example C14_nonvacuous_many_calls :
+  let c := mrun 2 (concat (repeat [0; 1; 2]%nat 30))
+                (mstart 1 [1] [TI (istart 1 true); TD (dstart 1); TI (istart 3 true)]) in
+  mquiescent c = true /\ sh_count (m_sh c) = len (sh_live (m_sh c)) /\ sh_mutex (m_sh c) = None
+  /\ Forall fresh [TI (istart 1 true); TD (dstart 1); TI (istart 3 true)].
+Proof.
+  split; [vm_compute; reflexivity|]. split; [vm_compute; reflexivity|]. split; [vm_compute; reflexivity|].
+  constructor; [left; eauto|]. constructor; [right; right; right; left; eauto|]. constructor; [left; eauto|constructor].
+Qed.
+
 Print Assumptions C14_count_exact_seq.
 Print Assumptions C14_never_above_limit.
 Print Assumptions C14_never_refused_below_limit.
+Print Assumptions C14_many_calls.
+Print Assumptions C14_many_tenants.
+Print Assumptions C14_other_tenants_untouched.
 Print Assumptions C14_pairs.
 Print Assumptions C14_pairs_cover_all_calls.
 Print Assumptions C14_old_protocol_overwrite_delete_drift.
